@@ -669,12 +669,21 @@ repsLoop:
 		}
 
 		var counter int
+		signed := []interop.PublicKey{}
 		for _, sig := range sigs[i] {
 			pubsI := Nodes(cid, uint8(i))
+		pubsLoop:
 			for iterator.Next(pubsI) {
 				pub := iterator.Value(pubsI).(interop.PublicKey)
+				for _, s := range signed {
+					if pub.Equals(s) {
+						// every member's signature counts once
+						continue pubsLoop
+					}
+				}
 				if crypto.VerifyWithECDsa(msg, pub, sig, crypto.Secp256r1Sha256) {
 					counter++
+					signed = append(signed, pub)
 					break
 				}
 			}
